@@ -10,9 +10,16 @@ let rec quads = function a :: b :: c :: d :: r -> (((a, b), c), d) :: quads r | 
 let show m =
   String.concat "," (List.map (fun row -> String.concat "" (List.map (fun b -> if b then "1" else "0") row)) m)
 
+let rec quads4 = function a :: b :: c :: d :: r -> (((a, b), c), d) :: quads4 r | [] -> [] | _ -> failwith "quad"
+
 let () = iter_lines (fun l ->
   try
     match words l with
+    | "angsepf" :: fl_ :: nums ->
+      (* angsepf <floor|none> <ra1 dec1 ra2 dec2>*  -> the separations as hex floats *)
+      let floor = (if fl_ = "none" then None else Some (fl fl_)) in
+      let rows = quads4 (List.map fl nums) in
+      print_endline (String.concat " " (List.map hx (angsep_floor_list numf rows floor)))
     | kind :: rest ->
       let np = (match kind with "angerr" -> 3 | _ -> 1) in
       let (ps, rest) = take np rest in
